@@ -408,6 +408,13 @@ def run_stream(fe, tbq, lines, indexed=True):
             events.append((i, 'T', '|'.join(hx(r) for r in item)))
     if not indexed:
         events = [(0, k, t) for _, k, t in events]
+    if fe in ('iter', 'bytestream') and not tbq and crash is None:
+        # the same reader consumed with next() instead of a for loop ("Returns the next decoded NMEA message")
+        alt = _by_next((ST.IterMessages if fe == 'iter' else ST.ByteStream)(list(lines)), len(lines))
+        ref_d = [t for _, k, t in events if k == 'D']
+        if alt != ref_d:
+            return 'READERS-DIFFER for-loop=%d deliveries next()=%s' % (len(ref_d), alt if isinstance(alt, str) else
+                                                                       '%d deliveries' % len(alt))
     if fe == 'iter' and not tbq and crash is None:
         # the same lines as text through IterMessages.from_strings: the same deliveries
         try:
@@ -422,6 +429,21 @@ def run_stream(fe, tbq, lines, indexed=True):
         except Exception as e:  # noqa
             return 'READERS-DIFFER from_strings raised ' + err(e)
     return _emit(events, crash)
+
+
+def _by_next(reader, bound):
+    """what a reader delivers when it is consumed by next() calls (at most `bound` + 1 of them)"""
+    out = []
+    try:
+        with reader as r:
+            for _ in range(bound + 1):
+                try:
+                    out.append(show_sentence(next(r)))
+                except StopIteration:
+                    break
+    except Exception as e:  # noqa
+        return err(e)
+    return out
 
 
 def run_unindexed(make_stream, tbq):
@@ -511,6 +533,9 @@ def file_readers(content, tbq):
         def mk(q):
             return ST.FileReaderStream(f.name, tbq=q)
         out['FileReaderStream'] = run_unindexed(mk, tbq)
+        if not tbq and 'CRASH' not in out['FileReaderStream']:
+            alt = _by_next(ST.FileReaderStream(f.name), content.count(b'\n') + 1)
+            out['FileReaderStream by next()'] = alt if isinstance(alt, str) else _emit([(0, 'D', t) for t in alt], None)
     return _family(out)
 
 
